@@ -320,7 +320,8 @@ def run(ck):
                "per a length, two offset units, offset x delta, delta per kelvin ...): predicates, pairs of equal "
                "dimensionality, numbers, powers, conversions. 5 string parsing under both default_as_delta values. 6 log "
                "units: every ordered pair of log units and related linear units — the conversion plan exactly, the float "
-               "value |err| <= 1e-12*max(1,|expected|) against a 60-digit evaluation (a test), same-unit + - and * 2, == / != against the logarithmic map incl. both magnitudes zero. == and != of the exact streams "
+               "value |err| <= 1e-12*max(1,|expected|) against a 60-digit evaluation (a test), same-unit + - and * 2; 5b a Unit object as operand: Unit*Q, Q*Unit, Unit/Q, Q/Unit (scalar, array, in place), "
+               "number*Unit, Unit*number, number/Unit, Unit/number in all four modes must equal the Quantity(1, unit) spelling; == / != against the logarithmic map incl. both magnitudes zero. == and != of the exact streams "
                "are judged by root-unit values also when both magnitudes are exactly zero (scalar, array, every mode). 7 ONE registry with autoconvert_offset_to_baseunit switched at run time (built in "
                "either mode; Fraction and float): random sequences of conversions of compound containers, single units, "
                "root units, powers, arithmetic — each answer must equal that of a never-switched registry in the current "
@@ -892,6 +893,82 @@ def run(ck):
                 oracle(got == exp, f"parse-as-delta:{'on' if asd else 'off'}:{s}", f"Quantity(1, {s!r}) has units {got}, expected {exp}",
                        {"op": "parse", "string": s, "default_as_delta": asd})
 
+    # 5b. a Unit OBJECT as an operand of * and /: every form must be what the spelling Quantity(1, unit) gives
+    def _defloat(r):
+        m = getattr(r, "_magnitude", None)
+        if isinstance(m, float) and F(m).denominator in (1, 2, 4, 8):      # Unit / 2 divides 1 / 2 in floats
+            return r.__class__(F(m), r._units)
+        return r
+    upool = [u.name for u in defaults] + [u.name for u in rng.sample(gens, 6 if not thorough else 30)] + ["meter", "second"]
+    qpool = [u.name for u in defaults] + [u.name for u in rng.sample(gens, 4 if not thorough else 20)] + ["meter"]
+    kinds = {u.name: u.kind for u in units}
+    for mode in modes_all:
+        reg, auto = regs[mode], mode[0]
+        for un in upool:
+            U = getattr(reg, un) if False else reg.Unit(reg.UnitsContainer({un: 1}))
+            one = lambda: reg.Quantity(1, reg.UnitsContainer({un: 1}))          # noqa: E731  the spelling
+            # --- Unit (op) Quantity, Quantity (op) Unit
+            for qn in (qpool if not thorough else qpool):
+                if kinds.get(un, "abs") != "offset" and kinds.get(qn, "abs") != "offset" and rng.random() < 0.7:
+                    continue
+                for form in ("unit-times-quantity", "quantity-times-unit", "unit-over-quantity", "quantity-over-unit"):
+                    arr = rng.random() < 0.35
+                    inplace = arr and form.startswith("quantity") and rng.random() < 0.5
+                    xs = mags(2 if arr else 0)
+                    if "over" in form:
+                        xs = [x if x != 0 else F(1) for x in xs]
+                    div = "over" in form
+
+                    def go(spell, form=form, xs=xs, arr=arr, inplace=inplace, qn=qn):
+                        q = mkq(reg, xs, qn, arr)
+                        u_ = one() if spell else U
+                        if form.startswith("unit"):
+                            return u_ / q if "over" in form else u_ * q
+                        if inplace:
+                            if "over" in form:
+                                q /= u_
+                            else:
+                                q *= u_
+                            return q
+                        return q / u_ if "over" in form else q * u_
+                    o_u = run_impl(lambda: go(False), len(xs) if arr else 0)
+                    o_q = run_impl(lambda: go(True), len(xs) if arr else 0)
+                    rp = {"op": "unit-operand", "form": form, "mode": list(mode), "array": arr, "inplace": inplace,
+                          "unit": un, "a": [[str(x) for x in xs], qn]}
+                    ck.count("unit-operand:" + form)
+                    oracle(repr(o_u) == repr(o_q), f"unit-operand:{form}:{un},{qn}",
+                           f"{form} with the Unit object {un} and {[str(x) for x in xs]} {qn} ({'autoconvert' if auto else 'default'} mode"
+                           f"{', array' if arr else ''}{', in place' if inplace else ''}) gives {o_u}; spelled with Quantity(1, {un}) it gives {o_q}", rp)
+                    qs_ = mkq(reg, xs, qn, arr)
+                    tag = muldiv_tag(one(), qs_, div) if form.startswith("unit") else muldiv_tag(qs_, one(), div)
+                    for i in range(len(xs)):
+                        A, B = coq_operand(F(1), {un: F(1)}), coq_operand(xs[i], {qn: F(1)})
+                        if form.startswith("quantity"):
+                            A, B = B, A
+                        add(f"KMulDiv {coq_bool(auto)} {coq_bool(inplace)} {coq_bool(div)} {A} {B} {tag} {coq_obs(o_u, i)}",
+                            dict(rp, observed=repr(o_u), branch=tag), ("unit-operand", form, un, qn, auto, arr), None)
+            # --- number (op) Unit, Unit (op) number
+            for form, n_ in (("number-times-unit", F(3)), ("unit-times-number", F(3, 2)), ("one-times-unit", F(1)), ("unit-times-one", F(1)),
+                             ("number-over-unit", F(2)), ("number-over-unit", F(1)), ("unit-over-number", F(2)), ("unit-over-number", F(1))):
+                nn = int(n_) if n_.denominator == 1 else n_
+
+                def gon(spell, form=form, nn=nn):
+                    u_ = one() if spell else U
+                    if form in ("number-times-unit", "one-times-unit"):
+                        return _defloat(nn * u_)
+                    if form in ("unit-times-number", "unit-times-one"):
+                        return _defloat(u_ * nn)
+                    if form == "number-over-unit":
+                        return _defloat(nn / u_)
+                    return _defloat(u_ / nn)
+                o_u, o_q = run_impl(lambda: gon(False), 0), run_impl(lambda: gon(True), 0)
+                rp = {"op": "unit-operand", "form": form, "mode": list(mode), "unit": un, "number": str(n_)}
+                ck.count("unit-operand:" + form)
+                ck.case(key=("unit-operand", form, un, str(n_), mode))
+                oracle(repr(o_u) == repr(o_q), f"unit-operand:{form}:{un},number",
+                       f"{form} with the Unit object {un} and the number {n_} ({'autoconvert' if auto else 'default'} mode) gives {o_u}; "
+                       f"spelled with Quantity(1, {un}) it gives {o_q}", rp)
+
     # 6. logarithmic units (floats)
     log_stream(ck, rng, thorough, add, oracle)
 
@@ -1326,6 +1403,28 @@ def replay(ck, path):
     doc = json.loads(open(path).read())
     rp = doc["replay"]
     print(json.dumps(doc, indent=1))
+    if rp.get("op") == "unit-operand":
+        mode = rp["mode"]
+        reg = pint.UnitRegistry(non_int_type=F, cache_folder=None, autoconvert_offset_to_baseunit=mode[0], default_as_delta=mode[1])
+        for ln in rp.get("defs", []):
+            reg.define(ln)
+        for spell in (False, True):
+            u_ = reg.Quantity(1, reg.UnitsContainer({rp["unit"]: 1})) if spell else reg.Unit(reg.UnitsContainer({rp["unit"]: 1}))
+            if "a" in rp:
+                xs = [F(x) for x in rp["a"][0]]
+                other = reg.Quantity(np.array(xs, dtype=object) if rp.get("array") else xs[0], rp["a"][1])
+            else:
+                other = F(rp["number"])
+                other = int(other) if other.denominator == 1 else other
+            f = rp["form"]
+            try:
+                left_unit = f.startswith("unit")
+                a, b = (u_, other) if left_unit else (other, u_)
+                r = a / b if "over" in f else a * b
+                print("Quantity(1, unit) spelling:" if spell else "Unit object:", getattr(r, "_magnitude", r), dict(getattr(r, "_units", {})))
+            except Exception as e:  # noqa: BLE001
+                print("Quantity(1, unit) spelling:" if spell else "Unit object:", "raises", type(e).__name__)
+        return 0
     if rp.get("op") == "mode-sequence":
         exactly = rp["numeric"] == "fraction"
         reg = pint.UnitRegistry(cache_folder=None, autoconvert_offset_to_baseunit=rp["constructed_with_autoconvert"],
